@@ -7,9 +7,12 @@ CONSTANTS
   ChunkSizes <- MCOne
   NetMayFail = FALSE
   MayLeaveLitter = FALSE
+  CloseDelimited = TRUE
   WriteInPlace = TRUE
   PersistBeforeStatusCheck = FALSE
   TruncatedIsSuccess = FALSE
+  SkipValidation = FALSE
+  FixedTempName = FALSE
   NoStaleFallback = FALSE
   AbortOnRefreshError = FALSE
 INVARIANTS FailKeeps
